@@ -1,11 +1,17 @@
 use crate::report::Report;
 use serde_json::Value;
 
+pub mod c01;
 pub mod c04;
+pub mod c08;
+pub mod c11;
 
 pub fn run(id: &str, rep: &mut Report) -> bool {
     match id {
+        "C01" => c01::run(rep),
         "C04" => c04::run(rep),
+        "C08" => c08::run(rep),
+        "C11" => c11::run(rep),
         _ => return false,
     }
     true
@@ -14,7 +20,10 @@ pub fn run(id: &str, rep: &mut Report) -> bool {
 pub fn replay(id: &str, v: &Value) -> i32 {
     let w = &v["witness"];
     let res = match id {
+        "C01" => c01::replay(w),
         "C04" => c04::replay(w),
+        "C08" => c08::replay(w),
+        "C11" => c11::replay(w),
         _ => {
             eprintln!("unknown property id {}", id);
             return 2;
